@@ -56,6 +56,13 @@ def run_case(ctx, rng, idx):
 def walk_case(ctx, rng, idx):
     from hypergraphx.dynamics import randwalk as rw
 
+    if idx == 2 or (ctx.tier == "thorough" and idx % 700 == 10):
+        from ..gen import big_hypergraph
+
+        ctx.event("big-hypergraph")
+        hb = big_hypergraph(rng, contiguous=True, connected=True, sizes=(2, 2, 3, 4, 5))
+        walk_eval(ctx, rng, idx, hb, hb.num_nodes())
+        return
     h, N = connected_hg(rng)
     walk_eval(ctx, rng, idx, h, N)
     from ..mutate import same_count_edit
@@ -79,7 +86,7 @@ def walk_eval(ctx, rng, idx, h, N):
     edges = [tuple(e) for e in h.get_edges()]
 
     def wit(extra=None):
-        return {"N": N, "edges": edges, "extra": repr(extra)[:800]}
+        return {"N": N, "edges": edges if len(edges) <= 40 else len(edges), "extra": repr(extra)[:800]}
 
     if not h.is_connected():
         ctx.note("generator-produced-disconnected")
